@@ -10,7 +10,7 @@ PY = sys.version_info[:2]
 
 ALL_FEATURES = [
     "try", "loop", "if", "match", "leave", "probe", "call", "multiitem", "layouts", "targets",
-    "scripts", "gcm", "es", "passive", "swallow", "raise", "prebound", "asyncmgr", "syncmgr", "sentinel",
+    "scripts", "gcm", "es", "passive", "swallow", "raise", "prebound", "asyncmgr", "syncmgr", "sentinel", "bloat",
 ]
 
 TARGETS_SUPPORTED = [
@@ -49,7 +49,13 @@ class Cfg(object):
         self.on = {}
         for f in ALL_FEATURES:
             self.on[f] = tape.choose(4) != 1  # value 0 -> enabled (shrinks keep features; harmless)
+        # many constants / long jumps (EXTENDED_ARG on LOAD_CONST None and on jumps): rarer, and off when shrunk
+        self.on["bloat"] = tape.choose(5) == 4
         self.no_handlers = False
+        # swarm knob: in half of the runs every manager's exit (and in a quarter also its
+        # enter) contains an observation point, so that every way of leaving a block is seen
+        self.always_exit_obs = tape.choose(2) == 1
+        self.always_enter_obs = tape.choose(4) == 1
         self.max_funcs = 1 + tape.choose(4)
         self.max_depth = 2 + tape.choose(3)
         for k, v in force.items():
@@ -148,6 +154,10 @@ class Gen(object):
     def gen_function(self, fn):
         lines = self.header(fn)
         fn.lines = lines
+        if self.on("bloat") and self.t.choose(2):
+            # a docstring makes None a late constant: LOAD_CONST None then needs EXTENDED_ARG
+            lines.append("    \'\'\'docstring\'\'\'")
+            lines.append("    W.keep([%s])" % ", ".join(str(5000 + fn.index * 400 + i) for i in range(300)))
         lines.append("    F = W.frame(%r)" % fn.name)
         n0 = len(lines)
         self.block(fn, 1, depth=0, inloop=False, nstmts=1 + self.t.choose(4 if fn.index == 0 else 3), top=True)
@@ -217,7 +227,10 @@ class Gen(object):
         elif c == 6:
             self.call(fn, ind, depth)
         elif c == 7:
-            if t.choose(2):
+            if self.on("bloat") and t.choose(2):
+                # a long straight-line statement: jumps across it need EXTENDED_ARG
+                self.emit(fn, ind, "W.keep([%s])" % ", ".join("W.i0" for _ in range(140)))
+            elif t.choose(2):
                 self.emit(fn, ind, "v%d = W.v()" % depth)
             else:
                 self.emit(fn, ind, "pass")
@@ -373,10 +386,19 @@ class Gen(object):
     def script(self, is_async, where):
         """enter/exit script of a class manager: tuple of actions."""
         t = self.t
-        if not self.on("scripts"):
+        forced = (where == "exit" and self.cfg.always_exit_obs) or (where == "enter" and self.cfg.always_enter_obs)
+        if not self.on("scripts") and not forced:
             return ()
         n = t.weighted([5, 3, 1])
         acts = []
+        if forced:
+            pid = self.nid()
+            if is_async and not (self.on("probe") and t.choose(2)):
+                acts.append(("trap", pid))
+                self.prog.points[pid] = {"kind": "trap", "where": where}
+            elif self.on("probe"):
+                acts.append(("probe", pid))
+                self.prog.points[pid] = {"kind": "probe", "where": where}
         for _ in range(n):
             c = t.weighted([3, (5 if where == "exit" else 3) if is_async else 0, 1 if self.on("raise") and not self.cfg.no_handlers else 0, 1])
             pid = self.nid()
